@@ -4,7 +4,7 @@
      parse_multipart_form_data       (final boundary by rfind, bytes.split on the delimiter line,
                                       ParseMultipartConfig limits, part headers, value slice)
      HTTPHeaders.parse(_chars_are_bytes=False)   (part headers; helpers shared with C06)
-     _parseparam / _parse_header     (helpers shared with C43; here WITH RFC 2231 extended
+     _parseparam / _parse_header     (scanner of fix 8596f7f here; decode_params helpers shared with C43; WITH RFC 2231 extended
                                       values: email.utils.decode_params / collapse_rfc2231_value
                                       for the charsets listed in [charset_kind])
      escape.parse_qs_bytes           (C21's model)
@@ -263,9 +263,29 @@ Fixpoint groups_collapsed (gs : list (str * list seg)) : res (list (str * str)) 
    collapse_rfc2231_value(str) = unquote *)
 Definition collapse_str (v : str) : str := email_unquote (34 :: email_quote v ++ [34]).
 
+(* _parseparam(';' + line) with the regular expression _PARAM_RE of fix 8596f7f (DOTALL).
+   One field = everything up to the next ';' that is not inside a quoted string; a double
+   quote opens a quoted string anywhere; inside it a backslash escapes the next character
+   (a lone trailing backslash is consumed too); an unterminated quote runs to the end.
+   [inq] = inside a quoted string, [esc] = the previous character was an escaping backslash.
+   Returns the first field and the others, unstripped. *)
+Fixpoint scan_params (s : str) (inq esc : bool) (cur : str) : str * list str :=
+  match s with
+  | [] => (rev cur, [])
+  | c :: r =>
+      if inq then
+        if esc then scan_params r true false (c :: cur)
+        else if c =? 92 then scan_params r true true (c :: cur)
+        else if c =? 34 then scan_params r false false (c :: cur)
+        else scan_params r true false (c :: cur)
+      else if c =? 59 then let '(f, fs) := scan_params r false false [] in (rev cur, f :: fs)
+      else if c =? 34 then scan_params r true false (c :: cur)
+      else scan_params r false false (c :: cur)
+  end.
+
 (* _parse_header(line) -> (key, pdict) *)
 Definition parse_header_x (line : str) : res (str * list (str * str)) :=
-  let '(k, fields) := split_params line false false [] in
+  let '(k, fields) := scan_params line false false [] in
   let key := strip k in
   let raw := raw_params fields in
   (* decode_params raised: the raw (name, value) pairs; collapse_rfc2231_value(str) = unquote *)
@@ -431,3 +451,42 @@ Definition parse_body (cfg : mconfig) (ce : bool) (ct : str) (body : list N) : r
                 end
        end)
   else Ok ([], []).
+
+(* ------------------------------------------------------------------ *)
+(* HTTPServerRequest: query arguments, then _parse_body                *)
+(* ------------------------------------------------------------------ *)
+(* arguments.setdefault(k, []).extend(vs) *)
+Fixpoint md_extend {V} (k : str) (vs : list V) (d : list (str * list V)) : list (str * list V) :=
+  match d with
+  | [] => [(k, vs)]
+  | (k', ws) :: d' => if str_eqb k k' then (k', ws ++ vs) :: d' else (k', ws) :: md_extend k vs d'
+  end.
+(* for k, v in self.body_arguments.items(): self.arguments.setdefault(k, []).extend(v) *)
+Definition merge_args (body_args args : args_t) : args_t :=
+  fold_left (fun a kv => md_extend (fst kv) (snd kv) a) body_args args.
+
+Inductive req_result :=
+| ReqOk (arguments query_arguments body_arguments : args_t) (files : files_t)
+| ReqErr (e : perr)            (* raised by _parse_body *)
+| ReqInitErr                   (* the constructor itself failed (query not latin-1, header rejected):
+                                  outside this property; never generated *).
+
+(* HTTPServerRequest(uri = path?query, headers = HTTPHeaders built by add(), body); then _parse_body().
+   [hdrs] are the (name, value) lines besides Host; the content type is headers.get("Content-Type", ""),
+   the Content-Encoding test is `"Content-Encoding" in headers` (both case-insensitive through
+   _normalize_header; C06's model of HTTPHeaders). *)
+Definition request_parse (cfg : mconfig) (query : str) (hdrs : list (str * str)) (body : list N) : req_result :=
+  match Q.parse_qs_bytes (Q.SStr query) true false with
+  | Q.Err _ => ReqInitErr
+  | Q.Ok qa =>
+      match H.add_all hdrs H.empty_h with
+      | (H.RUnit, h) =>
+          let ct := match H.get_item s_content_type h with (H.RText v, _) => v | _ => [] end in
+          let ce := H.contains [67;111;110;116;101;110;116;45;69;110;99;111;100;105;110;103] h in
+          match parse_body cfg ce ct body with
+          | Ok (ba, fs) => ReqOk (merge_args ba qa) qa ba fs
+          | Err e => ReqErr e
+          end
+      | _ => ReqInitErr
+      end
+  end.
